@@ -1312,6 +1312,7 @@ theorem engArithVV_raw_incr (st : St) (op : String) (tc : List String) (a b r : 
     (hib : b.requiresIterator = false) (hir : r.requiresIterator = false) (hord : sameOrd a b = true)
     (hr : ReuseFits r a.shape a.dt a.ap.o.col) :
     engArithVV st op tc a b { incr := some r } = (do
+      if incrRefused a.win b.win r.win then return ⟨st, some r, .failed⟩
       let s ← eOpIncr st a.win b.win r.win (fun x y => .app2 op x y) (vecFn op a.dt)
       pure ⟨s, some r, .reuse⟩) := by
   obtain ⟨h1, h2⟩ := sameOrd_of_col hord hr.col
@@ -1459,10 +1460,11 @@ theorem engArithVV_incr_raw' (st : St) (op : String) (tc : List String) (a b r :
       Writes st st' r.win.buf r.win.off a.win.len (fun i =>
         accAdd (cellD st r.win.buf (r.win.off + i))
           (vecFn op a.dt (cellD st a.win.buf (a.win.off + i)) (cellD st b.win.buf (b.win.off + i)))) := by
+  have hnr : incrRefused a.win b.win r.win = false := by simp [incrRefused, isSc, hla, hlb]
   rw [engArithVV_raw_incr st op tc a b r hc hk hia hib hir hord hr, eOpIncr_VV _ _ _ _ _ _ hla hlb]
   obtain ⟨s2, h2, w2⟩ := kIncrVV_spec st a.win b.win r.win (vecFn op a.dt) accAdd hna hnb hcb hcr
     hA.has hB.has hR.has
-  exact ⟨s2, by simp only [h2, bind, Except.bind]; rfl, w2⟩
+  exact ⟨s2, by simp only [hnr, h2, bind, Except.bind, Bool.false_eq_true, if_false]; rfl, w2⟩
 
 
 /-! ### iterator path -/
